@@ -178,7 +178,9 @@ out:
 	if (exit_cb)
 		exit_cb(tg, cb_arg);
 
-	tg->node = node->parent;
+	/* an EXIT whose ENTRY was not seen (-r, trace_on) must not leave the graph without a current node */
+	if (node->parent)
+		tg->node = node->parent;
 
 	return 0;
 }
